@@ -59,13 +59,12 @@ pub fn sample_covariance_online(x: &[f64], y: &[f64]) -> f64 {
     for (i, j) in x.iter().zip(y.iter()) {
         n += 1.;
         let dx = i - meanx;
-        let dy = j - meany;
         meanx += dx / n;
-        meany += dy / n;
-        c += dx * dy;
+        meany += (j - meany) / n;
+        c += dx * (j - meany);
     }
 
-    c / n
+    c / (n - 1.)
 }
 
 #[cfg(test)]
